@@ -49,6 +49,7 @@ class Ctx:
         self._feas = None       # incremental solver for feasibility
         self._feas_n = 0
         self.keep = []          # keep ASTs alive (ids are used as keys)
+        self.memo = {}          # ast-id of decided condition -> (val, ast)
         self.uf = {}
 
     # -- variables --------------------------------------------------------
@@ -167,6 +168,10 @@ class Ctx:
             return True
         if z3.is_false(c):
             return False
+        cid = c.get_id()
+        hit = self.memo.get(cid)
+        if hit is not None:
+            return hit[0]
         i = len(self.trace)
         self.stats['decisions'] += 1
         if i < len(self.prefix):
@@ -186,6 +191,7 @@ class Ctx:
                 raise Infeasible()
         self.trace.append(val)
         self.pc.append(c if val else z3.Not(c))
+        self.memo[cid] = (val, c)     # (keeps c alive: ids are stable)
         return val
 
     def path_assume(self, cond):
@@ -216,6 +222,7 @@ class Ctx:
             self.prefix = self.pending.pop()
             self.trace = []
             self.pc = []
+            self.memo = {}
             self._feas = None
             try:
                 res = fn()
@@ -299,7 +306,6 @@ def _rv(fr):
 class Q:
     """Exact real scalar: concrete Fraction (c) or z3 Real term (t)."""
     __slots__ = ('c', '_t')
-    __array_priority__ = 1000
 
     def __init__(self, v):
         if isinstance(v, Fraction):
@@ -536,7 +542,6 @@ class Q:
 class B:
     """Symbolic Boolean; bool() forks."""
     __slots__ = ('t',)
-    __array_priority__ = 1000
 
     def __init__(self, t):
         self.t = t
@@ -589,7 +594,6 @@ def qt(x):
 class Qc:
     """Complex scalar as (re, im) pair of Q."""
     __slots__ = ('re', 'im')
-    __array_priority__ = 1001
 
     def __init__(self, re, im=0):
         self.re = re if isinstance(re, Q) else Q(re)
